@@ -214,7 +214,7 @@ func runHparse(toks []string) (string, string) {
 		return res.obs, "FAIL:" + kind + ":second parse fails: " + gowarc.VerifErrClass(err2)
 	case nf2 != 0:
 		return res.obs, fmt.Sprintf("FAIL:%s:second parse has %d findings", kind, nf2)
-	case wf2.String() != res.wf.String():
+	case wf2.String() != res.wf.String() || fieldPairs(wf2) != fieldPairs(res.wf):
 		return res.obs, "FAIL:" + kind + ":second parse yields different fields"
 	}
 	return res.obs, "OK"
@@ -278,8 +278,20 @@ func runHapi(toks []string) (string, string) {
 	if nf != 0 {
 		return obs, "FAIL:" + kind + ":findings on serialized API-built fields"
 	}
-	if wf2.String() != wf.String() {
+	// names and values as the API holds them (not their serialization, which both sides share)
+	if wf2.String() != wf.String() || fieldPairs(wf2) != fieldPairs(wf) {
 		return obs, "FAIL:" + kind + ":fields changed by serialize-then-parse"
 	}
 	return obs, "OK"
+}
+
+func fieldPairs(wf *gowarc.WarcFields) string {
+	if wf == nil {
+		return ""
+	}
+	var sb strings.Builder
+	for _, nv := range *wf {
+		sb.WriteString(nv.Name + "\x00" + nv.Value + "\x01")
+	}
+	return sb.String()
 }
